@@ -16,7 +16,7 @@ RULE = ("case = (shared configuration {key_prefix bytes/str, default_noreply, en
         "none/json/pickle/compressed, connect_timeout, timeout, no_delay, socket_keepalive, TLS}, server state in "
         "hit/numeric-hit/miss, one key-addressed call: required arguments positionally, optional ones (expire, noreply, "
         "flags, default, cas_default) by keyword, get's default also positionally; cas with matching / stale token; "
-        "incr on numeric / non-numeric / missing; illegal keys; str values only some encodings can encode). The call is "
+        "incr on numeric / non-numeric / missing; multi-key calls with repeated keys; illegal keys; str values only some encodings can encode). The call is "
         "run on a fresh stack of each kind - Client (reference), PooledClient, HashClient([server]) with use_pooling "
         "off and on, RetryingClient(Client, attempts=1), and attempts=3 when the reference call succeeds - each over "
         "its own fake network and memcached model in the same state. Oracle (differential): identical parsed command "
@@ -247,6 +247,10 @@ CALLS = [
     {"op": "delete", "key": "k", "noreply": False},
     {"op": "delete_many", "keys": ["k", "j"], "noreply": False},
     {"op": "delete_many", "keys": []},
+    {"op": "delete_many", "keys": ["k", "k"], "noreply": False},
+    {"op": "delete_many", "keys": ["j", "k", "j", b"k"]},
+    {"op": "get_many", "keys": ["k", "k", "j", b"k"]},
+    {"op": "gets_many", "keys": ["zz", "k", "zz"]},
     {"op": "incr", "key": "k", "delta": 3},
     {"op": "incr", "key": "k", "delta": 3, "noreply": True},
     {"op": "decr", "key": "k", "delta": 3},
@@ -319,7 +323,9 @@ def random_strategy(tier):
     gats = mk(st.fixed_dictionaries({"op": st.just("gats"), "key": key}), {"expire": expire, "default": dflt, "cas_default": dflt})
     # multi-key calls carry legal keys only: with an illegal member Client/PooledClient send nothing while HashClient,
     # which works key by key, has already sent the earlier ones - a difference C02's statement explicitly allows
-    keys = st.lists(st.sampled_from(["k", "j", "zz", b"q", "key:5"]), max_size=4, unique_by=lambda k: k if isinstance(k, bytes) else k.encode())
+    # (repeated keys are legal: the plain Client sends the key once per occurrence)
+    keys = st.one_of(st.lists(st.sampled_from(["k", "j", "zz", b"q", "key:5"]), max_size=4, unique_by=lambda k: k if isinstance(k, bytes) else k.encode()),
+                     st.lists(st.sampled_from(["k", "j", "zz", b"k", "key:5"]), min_size=2, max_size=5))
     many = st.fixed_dictionaries({"op": st.sampled_from(["get_many", "gets_many"]), "keys": keys})
     delmany = mk(st.fixed_dictionaries({"op": st.just("delete_many"), "keys": keys}), {"noreply": noreply})
     setmany = mk(st.fixed_dictionaries({"op": st.just("set_many"), "values": st.dictionaries(st.sampled_from(["k", "j", "zz"]), value, min_size=1, max_size=3)}),
